@@ -19,6 +19,17 @@ package main
 //  ck-file missing G n=N                           => loaded=[…zeros…] exist=false
 //  ck-file unwritable G f12=swallows|reports       => save=ok|err written=no
 //  ck-ro cb|file G n=N pre=DOCS state=DOCS dirty=VBS => save=ok changed=no same=yes loaded=[…] exist=B
+//  ck-bulk cb G n=N lat=MS salt=K pre=M skip=S fail=-|VB
+//                                                  => save=ok keys=W ops=T stray=X loaded=[vb(U,S,SS,SE) …] exist=B | save=err
+//       ONE Save of a large dirty set (N up to 1024 vBuckets) through the real couchbase back end against a
+//       1024-vBucket node that answers every KV write after MS milliseconds (so the writes of the save overlap),
+//       then Load of all N.  The documents are not listed on the op line: vBucket vb holds ckBulkDoc(K, vb)
+//       (four distinct 64-bit values per vBucket, see there; Lean: Wire.bulkDoc); M > 0: the vBuckets with
+//       vb % M == 0 have a document ckBulkDoc(K+1, vb) before the save (pure-upsert path); S > 0: the vBuckets
+//       with vb % S == S-1 are in the state but NOT dirty; fail=VB: the node answers the first sub-document
+//       write of that vBucket with INTERNAL_ERROR (the save must then report an error).
+//       keys = dirty vBuckets whose key received a successful xattr write, ops = KV writes logged by the node
+//       during the save (any status), stray = writes to any other key.
 //
 // DOCS = `-` or vb:(U,S,SS,SE) joined by `;`   VBS = `-` or comma separated ids.
 // G = group name (fresh per line, so every line starts from an empty store).
@@ -32,6 +43,8 @@ import (
 	"sort"
 	"strconv"
 	"strings"
+	"sync"
+	"time"
 
 	"github.com/Trendyol/go-dcp/config"
 	"github.com/Trendyol/go-dcp/couchbase"
@@ -40,6 +53,7 @@ import (
 	"github.com/Trendyol/go-dcp/models"
 	"github.com/Trendyol/go-dcp/stream"
 	"github.com/Trendyol/go-dcp/tracing"
+	"github.com/couchbase/gocbcore/v10/memd"
 
 	"verifharness/sim"
 )
@@ -55,6 +69,7 @@ type ckEnv struct {
 	cfg  *config.Dcp
 	cl   couchbase.Client
 	dir  string
+	bulk *ckBulkEnv // created by the first ck-bulk line
 }
 
 func newCkEnv() *ckEnv {
@@ -84,6 +99,10 @@ func newCkEnv() *ckEnv {
 }
 
 func (e *ckEnv) close() {
+	if e.bulk != nil {
+		e.bulk.cl.Close()
+		e.bulk.node.Close()
+	}
 	e.cl.DcpClose()
 	e.cl.Close()
 	e.node.Close()
@@ -392,6 +411,11 @@ func (e *ckEnv) exec(op string) (res string) {
 			return e.readOnly(t[1], t[2], n, pre, state, dirty)
 		}
 		return e.save(t[1], t[2], n, pre, state, dirty)
+	case "ck-bulk":
+		if len(t) != 9 || t[1] != "cb" {
+			return "bad-op"
+		}
+		return e.bulkSave(t[2], ckKV(t[3:]))
 	case "ck-corrupt":
 		if len(t) != 4 {
 			return "bad-op"
@@ -516,6 +540,161 @@ func (e *ckEnv) readOnly(kind, group string, n int, pre, state map[uint16]ckDoc,
 		same = "no"
 	}
 	return fmt.Sprintf("save=%s changed=%s same=%s %s", sv, changed, same, through)
+}
+
+// ---------------------------------------------------------------- large dirty sets (ck-bulk)
+
+const ckBulkMaxVbs = 1024
+
+// ckBulkEnv: a second simulated node with the full 1024 vBuckets and its own real client; every KV write
+// (SET, sub-document mutation) is answered after `lat`, the first sub-document write to `failKey` with an error
+type ckBulkEnv struct {
+	node *sim.Node
+	cfg  *config.Dcp
+	cl   couchbase.Client
+
+	mu      sync.Mutex
+	lat     time.Duration
+	failKey string
+}
+
+func (e *ckEnv) bulkEnv() *ckBulkEnv {
+	if e.bulk != nil {
+		return e.bulk
+	}
+	b := &ckBulkEnv{}
+	b.node = sim.New(sim.Options{NumVb: ckBulkMaxVbs})
+	if err := b.node.Start(); err != nil {
+		panic(err)
+	}
+	b.cfg = b.node.Config("ckb", "couchbase")
+	b.cfg.Checkpoint.Type = "manual"
+	b.cl = couchbase.NewClient(b.cfg)
+	if err := b.cl.Connect(); err != nil {
+		panic(err)
+	}
+	b.node.OnRequest(func(r sim.Request) sim.Action {
+		if r.Opcode != memd.CmdSubDocMultiMutation && r.Opcode != memd.CmdSet {
+			return sim.Default()
+		}
+		b.mu.Lock()
+		lat, fk := b.lat, b.failKey
+		if fk != "" && r.Opcode == memd.CmdSubDocMultiMutation && strings.HasSuffix(string(r.Key), fk) {
+			b.failKey = ""
+			b.mu.Unlock()
+			return sim.Status(memd.StatusInternalError).After(lat)
+		}
+		b.mu.Unlock()
+		if lat > 0 {
+			return sim.Delay(lat)
+		}
+		return sim.Default()
+	})
+	e.bulk = b
+	return b
+}
+
+func (b *ckBulkEnv) script(lat time.Duration, failKey string) {
+	b.mu.Lock()
+	b.lat, b.failKey = lat, failKey
+	b.mu.Unlock()
+}
+
+// ckBulkDoc: the document of vBucket vb in a ck-bulk line with salt K: with b = K*1000003 + vb, field k (1..4)
+// is (b+k)*6364136223846793005 + k*1442695040888963407 (mod 2^64).  Multiplication by an odd constant is a
+// bijection, so for one salt all 4*N values are distinct.  Mirrored by Wire.bulkDoc in Driver/Wire.lean.
+func ckBulkDoc(salt uint64, vb int) ckDoc {
+	b := salt*1000003 + uint64(vb)
+	f := func(k uint64) uint64 { return (b+k)*6364136223846793005 + k*1442695040888963407 }
+	return ckDoc{f(1), f(2), f(3), f(4)}
+}
+
+func (e *ckEnv) bulkSave(group string, kv map[string]string) string {
+	n, e1 := strconv.Atoi(kv["n"])
+	lat, e2 := strconv.Atoi(kv["lat"])
+	salt, e3 := strconv.ParseUint(kv["salt"], 10, 64)
+	preM, e4 := strconv.Atoi(kv["pre"])
+	skip, e5 := strconv.Atoi(kv["skip"])
+	if e1 != nil || e2 != nil || e3 != nil || e4 != nil || e5 != nil || n < 1 || n > ckBulkMaxVbs || lat < 0 || lat > 1000 || preM < 0 || skip < 0 {
+		return "bad-op"
+	}
+	failVb := -1
+	if f := kv["fail"]; f != "-" {
+		v, err := strconv.Atoi(f)
+		if err != nil || v < 0 || v >= n || (skip > 0 && v%skip == skip-1) {
+			return "bad-op" // the failing vBucket must be one the save writes
+		}
+		failVb = v
+	}
+	b := e.bulkEnv()
+	c := *b.cfg
+	c.Dcp.Group.Name = group
+	md := couchbase.NewCBMetadata(b.cl, &c)
+	key := func(vb int) string { return helpers.Prefix + group + ":checkpoint:" + strconv.Itoa(vb) }
+
+	// documents that exist before the save: written through the real Save in small portions, no latency
+	b.script(0, "")
+	if preM > 0 {
+		st, dirty := map[uint16]*models.CheckpointDocument{}, map[uint16]bool{}
+		flush := func() bool {
+			if len(st) == 0 {
+				return true
+			}
+			err := md.Save(st, dirty, "u")
+			st, dirty = map[uint16]*models.CheckpointDocument{}, map[uint16]bool{}
+			return err == nil
+		}
+		for vb := 0; vb < n; vb += preM {
+			st[uint16(vb)] = ckModelDoc(ckBulkDoc(salt+1, vb))
+			dirty[uint16(vb)] = true
+			if len(st) == 16 && !flush() {
+				return "presave-err"
+			}
+		}
+		if !flush() {
+			return "presave-err"
+		}
+		for vb := 0; vb < n; vb += preM { // the harness's own precondition, read from the node
+			if _, ok := b.node.KVGet(0, key(vb)); !ok {
+				return "presave-incomplete"
+			}
+		}
+	}
+
+	state, dirty := map[uint16]*models.CheckpointDocument{}, map[uint16]bool{}
+	expected := map[string]bool{}
+	for vb := 0; vb < n; vb++ {
+		state[uint16(vb)] = ckModelDoc(ckBulkDoc(salt, vb))
+		if skip == 0 || vb%skip != skip-1 {
+			dirty[uint16(vb)] = true
+			expected[key(vb)] = true
+		}
+	}
+	fk := ""
+	if failVb >= 0 {
+		fk = key(failVb)
+	}
+	b.node.ResetLogs()
+	b.script(time.Duration(lat)*time.Millisecond, fk)
+	err := md.Save(state, dirty, "u")
+	b.script(0, "")
+	if err != nil {
+		return "save=err"
+	}
+	// what the node saw: per key, did a successful xattr write arrive
+	done := map[string]bool{}
+	ops, stray := 0, 0
+	for _, w := range b.node.KVWrites() {
+		ops++
+		if !expected[w.Key] {
+			stray++
+			continue
+		}
+		if w.Op == "MUTATEIN" && w.Status == memd.StatusSuccess && len(w.Paths) == 1 && w.Paths[0] == "x:"+helpers.Name {
+			done[w.Key] = true
+		}
+	}
+	return fmt.Sprintf("save=ok keys=%d ops=%d stray=%d %s", len(done), ops, stray, ckLoad(md, n))
 }
 
 var ckCorruptKinds = map[string]string{
@@ -891,4 +1070,35 @@ func runC02W(c *Ctx) {
 		}
 	}
 	c.Extra["open_cases"] = nOpen
+
+	// G. large dirty sets in ONE save (C05: a successful save has stored every dirty vBucket): more writes than any
+	//    plausible concurrency bound, answered with a small latency so that they are in flight together
+	bulk := func(n, lat, preM, skip, fail int, tags ...string) {
+		f := "-"
+		if fail >= 0 {
+			f = strconv.Itoa(fail)
+		}
+		t0 := time.Now()
+		one(fmt.Sprintf("ck-bulk cb %s n=%d lat=%d salt=%d pre=%d skip=%d fail=%s", group(), n, lat, r.Intn(1<<30), preM, skip, f), true, tags...)
+		if d := time.Since(t0); d > bulkMax {
+			bulkMax = d
+		}
+	}
+	for _, n := range []int{8, 64, 65, 128, 300, 1024} {
+		bulk(n, 2, 0, 0, -1, "bulk-create", fmt.Sprintf("bulk-n%d", n))
+	}
+	bulk(1024, 5, 3, 0, -1, "bulk-mixed", "bulk-n1024")
+	bulk(300, 3, 1, 7, -1, "bulk-upsert-partly-dirty", "bulk-n300")
+	for i := 0; i < c.N(4, 40); i++ {
+		n := []int{65, 66, 100, 129, 200, 257, 512, 1023, 1024}[r.Intn(9)]
+		bulk(n, r.Range(1, 6), []int{0, 0, 1, 2, 5}[r.Intn(5)], []int{0, 0, 2, 3, 10}[r.Intn(5)], -1, "bulk-random")
+	}
+	// one write of the save is refused: the save must not report success
+	for _, n := range []int{1, 40, 200, 1024} {
+		fail := r.Intn(n)
+		bulk(n, 2, 0, 0, fail, "bulk-failed-write", fmt.Sprintf("bulk-n%d", n))
+	}
+	c.Extra["bulk_max_ms"] = bulkMax.Milliseconds()
 }
+
+var bulkMax time.Duration
